@@ -148,7 +148,7 @@ def check(case, ctx):
             def entry(attr):
                 d_ = getattr(job, attr)
                 for k, v in d_.items():
-                    if k.name == up:
+                    if S.key_of(k) == up:
                         return c(v)
                 problems.append("%s.%s has no entry for usage pattern %s" % (j, attr, up))
                 return None
